@@ -352,9 +352,10 @@ func (rc *RecoveryConsumer) RefreshAssignments() error {
 		recoveryState, partitionIsInRecovery := rc.activePartitionMap[partition.Partition]
 
 		if recoveryRequest != nil {
-			// use the most recent offset consumed if the partition is already in recovery, falling back to the fromOffset from the tracker request
+			// use the most recent offset consumed if the partition is already in recovery for this same request, falling back to the
+			// fromOffset from the tracker request; progress made on a previous request says nothing about a different one
 			fromOffset := recoveryRequest.FromOffset
-			if partitionIsInRecovery && recoveryState.fromOffset > fromOffset {
+			if partitionIsInRecovery && recoveryState.toOffset == recoveryRequest.ToOffset && recoveryState.fromOffset > fromOffset {
 				fromOffset = recoveryState.fromOffset
 			}
 
